@@ -172,9 +172,10 @@ func (d *decoder) decode(v interface{}) error {
 						var err error
 						if tlv8 == "-" {
 							// unnamed slices are inline encoded
+							n := d.r.buckets()
 							err = d.decode(v)
-							if isEmptyStruct(v) {
-								// step out of loop
+							if d.r.buckets() == n {
+								// nothing was read: step out of loop
 								break
 							}
 						} else {
